@@ -41,6 +41,9 @@ class Prop(common.PropertyCheck):
         # an instrument with 12 fluorescence channels, all reported and plotted
         yield {'k': 'run', 'plot': True, 'hist': rng.random() < 0.5, 'ninst': 1, 'arity': 1, 'default_out': False, 'rel_out': True, 'seed': rng.randrange(1 << 30), 'inp_name': 'wide', 'wide': 12}
         yield {'k': 'run', 'plot': True, 'hist': False, 'ninst': 2, 'arity': 2, 'default_out': False, 'rel_out': True, 'seed': rng.randrange(1 << 30), 'inp_name': 'twice', 'again': True}
+        for mi, minimal in enumerate(['nobeads', 'nounits']):
+            yield {'k': 'run', 'plot': mi == 0, 'hist': True, 'ninst': 1, 'arity': 1, 'default_out': False, 'rel_out': False, 'seed': rng.randrange(1 << 30),
+                   'inp_name': 'minimal%d' % mi, 'minimal': minimal, 'odd_headers': False}
         for ci, (plot, hist, ninst, arity) in enumerate(combos):
             yield {'odd_headers': ci % 2 == 0, 'k': 'run', 'plot': plot, 'hist': hist, 'ninst': ninst, 'arity': arity, 'default_out': rng.random() < 0.5 or (plot and not hist), 'rel_out': True, 'seed': rng.randrange(1 << 30),
                    'inp_name': rng.choice(['samples', 'cells', 'mix.xls', 'xlsx', 'results.'] + ([] if (plot and not hist) else ['experiment', 'plate_07']))}
@@ -141,8 +144,17 @@ class Prop(common.PropertyCheck):
                 brows.append(excelgen.beads_row('B4', 'FC002', 'FCFiles/beads2.fcs', channels=('PE-Texas Red-A',), clustering=('PE-Texas Red-A', 'GFP-A'),
                                                 mef={'PE-Texas Red-A': excelgen.MEF_VALUES['FL2']}))
                 srows.append(excelgen.sample_row('T0', 'FC002', 'FCFiles/t0.fcs', {'GFP-A': 'RFI', 'PE-Texas Red-A': 'MEF'}, 'B4', extra={'Strain': 'z', 'Dose': 2}))
-            beads = pd.DataFrame(brows)
+            if case.get('minimal'):
+                # a workbook without bead rows (the Beads sheet holds its header only) and, for 'nounits', without any units cell filled in
+                brows = []
+                srows = [excelgen.sample_row('S0', 'FC001', 'FCFiles/s0.fcs', {} if case['minimal'] == 'nounits' else {'FL1': 'a.u.', 'FL2': 'RFI'}, None, extra={'Strain': 'x', 'Dose': 1.5}),
+                         excelgen.sample_row('S2', 'FC001', 'FCFiles/s1.fcs', {}, None, gate_fraction=0.7, extra={'Strain': 'w', 'Dose': 3})]
+            beads = pd.DataFrame(brows) if brows else pd.DataFrame(columns=['ID', 'Instrument ID', 'File Path', 'Beads Lot', 'Gate Fraction', 'Clustering Channels', 'FL1 MEF Values'])
             samples = pd.DataFrame(srows)
+            if case.get('minimal'):
+                for c in ('FL1 Units', 'FL2 Units'):
+                    if c not in samples.columns:
+                        samples[c] = np.nan
             samples['Remarks'] = np.nan          # a column the user has not filled in at all
             if case.get('odd_headers', case['seed'] % 2):
                 # headers as typed in a spreadsheet: a trailing blank, two blanks before "Units" (both match the documented header pattern)
@@ -253,9 +265,9 @@ class Prop(common.PropertyCheck):
             res['report_channels'] = [UNITS_RE.match(c).group(1) for c in samples.columns if UNITS_RE.match(c)]
             figs = []
             if case['plot']:
-                want = ['plot_beads/density_hist_B1.png', 'plot_beads/clustering_B1.png'] + \
-                       ['plot_beads/populations_%s_B1.png' % c for c in ('FL1', 'FL3')] + ['plot_beads/std_crv_%s_B1.png' % c for c in ('FL1', 'FL3')] + \
-                       ['plot_samples/%s.png' % s for s in samples['ID'].dropna()]
+                want = (['plot_beads/density_hist_B1.png', 'plot_beads/clustering_B1.png'] +
+                        ['plot_beads/populations_%s_B1.png' % c for c in ('FL1', 'FL3')] + ['plot_beads/std_crv_%s_B1.png' % c for c in ('FL1', 'FL3')]
+                        if not case.get('minimal') else []) + ['plot_samples/%s.png' % s for s in samples['ID'].dropna()]
                 for f in want:
                     p = os.path.join(ex.dir, f)
                     if not (os.path.exists(p) and os.path.getsize(p) > 500 and open(p, 'rb').read(4) == b'\x89PNG'):
